@@ -358,6 +358,16 @@ def _last_wins():
 _enumerated("verif.driver.run#COMMUTE:-c/-C-last-one-wins", ("C13", "C14"), "the two orders of -c and -C", _last_wins(), ["verif.driver.run"])
 
 
+CONFIG_LAYOUTS = {
+    "three-per-line": lambda toks: "".join(" ".join(toks[i:i + 3]) + "\n" for i in range(0, len(toks), 3)),
+    "one-per-line": lambda toks: "".join(t + "\n" for t in toks),
+    "one-line-no-final-newline": lambda toks: " ".join(toks),
+    "three-per-line-no-final-newline": lambda toks: "\n".join(" ".join(toks[i:i + 3]) for i in range(0, len(toks), 3)),
+    "tabs-and-crlf": lambda toks: "".join("\t".join(toks[i:i + 2]) + "\r\n" for i in range(0, len(toks), 2)),
+    "blank-lines-and-padding": lambda toks: "\n" + "".join("  " + " ".join(toks[i:i + 4]) + "   \n\n" for i in range(0, len(toks), 4)),
+}
+
+
 def _config():
     def body():
         cases = 0
@@ -366,18 +376,30 @@ def _config():
             for flags in (C13_FLAGS[:10], C13_FLAGS[10:20], C13_FLAGS[20:] , list(OPTIONS)[28:50], list(OPTIONS)[50:]):
                 flags = [f for f in flags if f not in ("-C", "-sort")]
                 inline = [x for f in flags for x in _args(f)]
-                path = os.path.join(d, "cfg%d.txt" % cases)
-                with open(path, "w") as fh:
-                    # several lines, several arguments per line
-                    for i in range(0, len(inline), 3):
-                        fh.write(" ".join(inline[i:i + 3]) + "\n")
                 a = run_driver(BASE + inline)
-                b = run_driver(BASE + ["--config", path])
-                c = run_driver(["--config", path] + BASE)
-                cases += 3
-                if a.outcome != "ok" or a.key() != b.key() or a.key() != c.key():
-                    return cases, {"flags": flags, "inline-outcome": a.outcome, "config-outcome": b.outcome,
-                                   "difference": [k for k in a.key() if a.key()[k] != b.key()[k] or a.key()[k] != c.key()[k]]}
+                cases += 1
+                for layout, render in CONFIG_LAYOUTS.items():
+                    path = os.path.join(d, "cfg%d.txt" % cases)
+                    with open(path, "w", newline="") as fh:
+                        fh.write(render(inline))
+                    b = run_driver(BASE + ["--config", path])
+                    c = run_driver(["--config", path] + BASE)
+                    cases += 2
+                    if a.outcome != "ok" or a.key() != b.key() or a.key() != c.key():
+                        return cases, {"flags": flags, "layout": layout, "file": render(inline), "inline-outcome": a.outcome, "config-outcome": b.outcome,
+                                       "difference": [k for k in a.key() if a.key()[k] != b.key()[k] or a.key()[k] != c.key()[k]]}
+                # the arguments split over two files
+                half = len(inline) // 2
+                while half < len(inline) and not inline[half].startswith("-"):
+                    half += 1
+                p1, p2 = os.path.join(d, "h1.txt"), os.path.join(d, "h2.txt")
+                open(p1, "w").write(" ".join(inline[:half]) + "\n")
+                open(p2, "w").write(" ".join(inline[half:]))
+                b = run_driver(["--config", p1] + BASE + ["--config", p2])
+                cases += 1
+                if a.key() != b.key():
+                    return cases, {"flags": flags, "layout": "two-config-files", "inline-outcome": a.outcome, "config-outcome": b.outcome,
+                                   "difference": [k for k in a.key() if a.key()[k] != b.key()[k]]}
         finally:
             import shutil
             shutil.rmtree(d, ignore_errors=True)
@@ -386,7 +408,9 @@ def _config():
 
 
 _enumerated("verif.driver.run#CONFIG:arguments-through---config-act-as-if-given-inline", ("C13",),
-            "five groups covering every documented flag, each through a --config file (before and after the positional arguments) vs inline",
+            "five groups covering every documented flag, each through a --config file in %d layouts (several arguments per line, one per line, "
+            "with and without a final newline, tabs and CRLF, blank lines and padding; before and after the positional arguments; split "
+            "over two --config files) vs inline" % len(CONFIG_LAYOUTS),
             _config(), ["verif.driver.run"])
 
 
